@@ -699,6 +699,7 @@ func permitted(e expect) string {
 func TestC08(t *testing.T) {
 	r := vf.Begin(t, "C08")
 	defer r.End()
+	defer perturbReport(r)
 	alpha := c08Alphabet()
 	r.Describe(fmt.Sprintf("bounded-exhaustive: every sequence of length<=2 (quick) / <=3 (thorough) over an alphabet of %d symbolic frames (HEADERS +/-END_STREAM +/-END_HEADERS, CONTINUATION +/-END_HEADERS, DATA +/-END_STREAM, RST_STREAM, WINDOW_UPDATE {0,n,to 2^31-1,beyond}, PRIORITY {other,self} on stream ids A=5 and B=7; HEADERS on an even id and on a lower id; DATA/RST_STREAM/WINDOW_UPDATE/PRIORITY on a never-opened id; PING, SETTINGS, connection WINDOW_UPDATE, unknown frame type), ", len(alpha))+
 		"each played on a fresh server connection in a synctest bubble with a quiescence barrier after every frame, once with handlers answering at once and once with handlers parked (half-closed(remote) persists), plus PRNG sequences of length 3..8. "+
